@@ -178,7 +178,7 @@ ROUND8 = {
  "C10": " A list and an uncopied method result are changed and put into one another in every sequence of <= 3 operations; collections are put into themselves in every way, the refusal handled, the collection rendered in eight ways.",
  "C15": " Scenarios reach an imported method through a variable, as an argument and through a middle module.",
  "C16": " Writing the status line and the body of a response are scheduling points of the explorer.",
- "C18": " A template plants the fault inside the handler of the body that raised.",
+ "C18": " A template plants the fault inside the handler of the body that raised; a fault statement may span a line break; every chain entry must quote the line it names; a run variant makes the outermost call the constructor of a type whose name an imported module exports too.",
 }
 for _i, _t in ROUND8.items():
     lvl, tech, text, note, ref = CHECKS[_i]
